@@ -3,7 +3,8 @@
 # pointer-conversion instrumentation (-gcflags=all=-d=checkptr) and run the mbits cases with the
 # slice placed at the very end of a heap allocation (BYTES_TIGHT=1).  A word access that leaves the
 # slice then leaves the allocation and the runtime aborts with "checkptr: converted pointer
-# straddles multiple allocations".  exit 0 = clean, 1 = violation (FAIL line), 2 = could not run.
+# straddles multiple allocations".  exit 0 = clean (or SKIPPED: the toolchain cannot instrument),
+# 1 = violation (FAIL line), 2 = could not run.  Runs in every tier.
 # args: <prop> <tier> <seed>
 set -u
 PROP="${1:-C20}"; TIER="${2:-quick}"; SEED="${3:-1}"
@@ -15,8 +16,16 @@ MOD="$W/checkptr.mod"
 sed "s|=> /repo|=> $REPO|" "$ROOT/harness/go.mod" > "$MOD"
 [ -f "$REPO/go.sum" ] && cp "$REPO/go.sum" "$W/checkptr.sum"
 EXE="$ROOT/work/bin/bytestrace_checkptr"
-( cd "$ROOT/harness" && timeout 600 go build -modfile "$MOD" -tags verif -gcflags=all=-d=checkptr -o "$EXE" ./cmd/bytestrace ) > "$W/checkptr.build.log" 2>&1 \
-  || { echo "checkptr build failed:"; tail -5 "$W/checkptr.build.log"; exit 2; }
+if ! ( cd "$ROOT/harness" && timeout 600 go build -modfile "$MOD" -tags verif -gcflags=all=-d=checkptr -o "$EXE" ./cmd/bytestrace ) > "$W/checkptr.build.log" 2>&1; then
+  # Is it the instrumentation this toolchain/platform does not offer, or the harness itself?
+  if ( cd "$ROOT/harness" && timeout 600 go build -modfile "$MOD" -tags verif -o "$EXE.plain" ./cmd/bytestrace ) > "$W/checkptr.plain.log" 2>&1; then
+    rm -f "$EXE.plain"
+    echo "SKIPPED: this Go toolchain cannot build with -gcflags=all=-d=checkptr ($(tail -1 "$W/checkptr.build.log" | cut -c1-160)); the guard-byte runs of the main trace still apply"
+    echo "EXTRA-JSON {\"checkptr_cases\": 0, \"skipped\": true}"
+    exit 0
+  fi
+  echo "checkptr build failed (the harness does not build without the flag either):"; tail -5 "$W/checkptr.build.log"; exit 2
+fi
 BYTES_TIGHT=1 timeout 900 "$EXE" -prop "$PROP" -tier "$TIER" -seed "$SEED" -out "$W/checkptr.trace" > "$W/checkptr.out" 2> "$W/checkptr.err"
 rc=$?
 cases=$(grep -c '^case ' "$W/checkptr.err" 2>/dev/null || echo 0)
